@@ -54,7 +54,7 @@ DRangeOK(c) == Le(Zero, DLo(c)) /\ Lt(DLo(c), DHi(c))                       \* n
 CRangeOK(c, size) == Le(Zero, CLo(c)) /\ Le(CLo(c), CHi(c)) /\ Le(CHi(c), size)   \* low <= high, inside the file
 
 \* The per-chunk clause.  `lenient` exempts the primary range of chunks whose
-\* TTag is 0xFD (used only to recognise one known finding, see KnownFdChunk).
+\* TTag is 0xFD (used only to recognise one known finding, see ExplShape).
 ChunkOK(c, size, lenient) == DRangeOK(c) /\ (CRangeOK(c, size) \/ (lenient /\ Tag(c) = 253))
 
 WalkOK(o, size, lenient) ==
@@ -125,10 +125,11 @@ Accept(rec) ==
     /\ (rec.valid = 1 => ValidOK(rec))
 
 ---------------------------------------------------------------------------
-(* Known findings (KNOWN_FINDINGS.txt).  The acceptance predicate has four *)
-(* parts; a record that is not accepted is "known" only if EVERY failing   *)
-(* part is explained by the exact construct of a known finding, so that    *)
-(* any other violation stays a violation.                                  *)
+(* Known findings (KNOWN_FINDINGS.txt).  The acceptance predicate has five *)
+(* parts (termination and work, panic, shape, open, valid-as-specified); a *)
+(* record that is not accepted is "known" only if EVERY failing part is    *)
+(* explained by the exact construct of a known finding, so that any other  *)
+(* violation stays a violation.  Keys names the findings involved.         *)
 
 FailTerm(rec)  == ~(Terminated(rec) /\ WorkOK(rec))
 FailPanic(rec) == rec.obs.panic
